@@ -58,7 +58,9 @@ let run_val (id : string) (fields : t list) : string =
            let vs = List.map (fun i ->
              match M.validate0 (re_match rx) (hashfun seed) fuel_big env i with
              | M.Ok _ -> "V" | M.Err -> "I" | M.Panic -> "P" | M.OutOfFuel -> "F") insts in
+           let supported = M.isValidSchemaVersion env.M.e_version in
            let sp = List.map (fun i ->
+             if not supported then "I" (* an unsupported $schema is refused for every instance *) else
              match M.spec_valid (re_match rx) fuel_big env (M.den i) with
              | Some true -> "V" | Some false -> "I" | None -> "F") insts in
            Printf.sprintf "%s unm=ok res=ok calls=%s v=%s spec_v=%s%s" id
